@@ -4,7 +4,9 @@ Engine E1 (exhaustive input / configuration enumeration), NumPy backend.  The in
 so EVERY tuple of band values over the alphabet is laid out in one raster (natural order, a permuted order,
 a transposed shape) and additionally fed as 1-cell rasters, for every combination of band dtypes and every
 parameter combination; each cell is compared with the published formula evaluated on exact rationals
-(xrmc/oracles/spectral.py).  The four normalised-difference indices are additionally checked for
+(xrmc/oracles/spectral.py).  true_color: every red raster over a small alphabet x nodata (space true_color), and every
+red raster over the values ON and immediately on either side of nodata IN THE RED RASTER'S OWN DTYPE (float64 and float32
+neighbours of nodata; 2^24-1, 2^24, 2^24+1 for int64/uint32/int32 rasters) x nodata (space true_color_nodata_edge).  The four normalised-difference indices are additionally checked for
 |v| <= 1 (non-negative bands), exact negation under band swap and exact invariance under 2^k scaling."""
 import itertools
 
@@ -30,6 +32,10 @@ SCALE_K = (1, 3, -2)
 NODATA = (0, 1, 5)
 TC_ALPHA = {"f8": (0, 0.5, 1, 2, 5, 6, 255, -1, NAN), "f4": (0, 0.5, 1, 2, 5, 6, 255, -1, NAN),
             "u1": (0, 1, 2, 5, 6, 255), "i2": (0, 1, 2, 5, 6, -1)}
+# red values adjacent to nodata in the red raster's own dtype: dtype -> nodata values (simplest first)
+TC_EDGE_NODATA = {"f8": (1, 0, 5, 16777216, 0.1), "f4": (1, 0, 5, 16777216, 0.1, 16777219),
+                  "i8": (16777216, 1, 16777217, 16777216.5), "u4": (16777216, 1, 16777217), "i4": (16777216, 16777217)}
+TC_EDGE_SHAPES = ((1, 1), (1, 2), (1, 3))
 TC_SHAPES = {"quick": ((1, 1), (1, 2), (1, 3), (2, 2)), "thorough": ((1, 1), (1, 2), (1, 3), (2, 2), (1, 5))}
 RTOL, ATOL = 1e-6, 1e-12
 
@@ -37,7 +43,8 @@ RULE = ("index spaces: rank -> (dtype of each band, layout, parameter combinatio
         "band values over the per-dtype alphabets in one raster (natural order / reversed+rotated single row / "
         "transposed shape), layouts >= 3 are the 1-cell rasters of each tuple; every cell is compared with the "
         "published formula; a case is non-trivial when its output has a finite non-zero cell; true_color: rank -> "
-        "(dtype, shape, every red raster over the alphabet, nodata); distinct = distinct (inputs, output) digests")
+        "(dtype, shape, every red raster over the alphabet, nodata); true_color_nodata_edge: rank -> (dtype, nodata, "
+        "shape, every red raster over {nodata and its neighbours in the raster dtype, NaN}); distinct = distinct (inputs, output) digests")
 ASSUMPTIONS = [
     "NumPy backend only (Dask is covered by C01)",
     "band values are restricted to the alphabet {0,0.5,1,2,3,255,65535,NaN} (integers: the representable subset, "
@@ -53,6 +60,10 @@ ASSUMPTIONS = [
     "EVI parameters are passed as Python floats; quick tier: 1-cell EVI rasters only for equal band dtypes (the "
     "per-cell kernel does not depend on the combination), thorough: for every dtype combination",
     "true_color: only shape, dtype and the alpha channel are asserted; RGB values are not part of the statement",
+    "true_color: 'red <= nodata' is decided exactly on the cell as stored in the red raster's own dtype and nodata as "
+    "passed (Python number).  float32 red raster with a nodata that is not float32-representable (0.1, 2^24+3): the "
+    "cell equal to float32(nodata) > nodata is a tie (the raster's own nodata value can only be float32(nodata)); "
+    "its float32 neighbours are asserted",
 ]
 BOUNDS = {t: {
     "band_alphabets": {k: [str(x) for x in v] for k, v in DT_ALPHA.items()},
@@ -60,6 +71,12 @@ BOUNDS = {t: {
     "soil_factor": list(SOIL), "c1": list(C12S), "c2": list(C12S), "gain": list(GAINS), "scale_k": list(SCALE_K),
     "true_color": {"red_alphabets": {k: [str(x) for x in v] for k, v in TC_ALPHA.items()},
                    "shapes": [list(s) for s in TC_SHAPES[t]], "nodata": list(NODATA)},
+    "true_color_nodata_edge": {
+        "nodata_by_red_dtype": {k: [repr(x) for x in v] for k, v in TC_EDGE_NODATA.items()},
+        "red_alphabet": "float64: nodata, its 2 float64 neighbours, float32(nodata) and its 2 float32 neighbours, NaN; "
+                        "float32: float32(nodata), its 2 float32 neighbours, NaN; integer dtypes: nodata-1, nodata, "
+                        "nodata+1 (floor, ceil for a fractional nodata)",
+        "shapes": [list(s) for s in TC_EDGE_SHAPES]},
 } for t in ("quick", "thorough")}
 
 
@@ -356,6 +373,7 @@ class TrueColorSpace(Space):
     def run(self, lo, hi, out):
         for rank in range(lo, hi):
             dt, red, nodata = self.case(rank)
+            cells = red.ravel().tolist()                          # exact Python numbers (ints stay ints)
             key = "|%s|%dx%d|red=%s|nodata=%r" % (dt, red.shape[0], red.shape[1], _fmt(red.ravel())[1:-1], nodata)
             g, b = red[::-1, ::-1].copy(), np.full_like(red, 3)
             try:
@@ -369,24 +387,60 @@ class TrueColorSpace(Space):
                 out.count("viol.true_color.raises")
                 out.violation(rank, "true_color.raises" + key, "true_color raised %r" % (e,), case=self.describe(rank))
                 continue
-            exp = np.array([ref.alpha_ref(v, nodata) for v in red.ravel().tolist()], dtype=np.uint8).reshape(red.shape)
-            out.case(outcome=bytes64(red.tobytes() + bytes([nodata]) + (o[..., 3].tobytes() if o.ndim == 3 else b"")),
+            exps = [ref.alpha_ref(v, nodata, f32_raster=(dt == "f4")) for v in cells]
+            tie = np.array([e == ref.TIE for e in exps], dtype=bool).reshape(red.shape)
+            exp = np.array([0 if e == ref.TIE else e for e in exps], dtype=np.uint8).reshape(red.shape)
+            out.case(outcome=bytes64(red.tobytes() + repr(nodata).encode() + (o[..., 3].tobytes() if o.ndim == 3 else b"")),
                      nontrivial=bool(exp.any() and not exp.all()))
             if o.shape != red.shape + (4,) or o.dtype != np.uint8:
                 out.count("viol.true_color.format")
                 out.violation(rank, "true_color.format" + key, "result is %s %r, expected uint8 %r"
                               % (o.dtype, o.shape, red.shape + (4,)), case=self.describe(rank))
                 continue
-            if not np.array_equal(o[..., 3], exp):
+            out.tie(int(tie.sum()))
+            if not np.array_equal(o[..., 3][~tie], exp[~tie]):
                 out.count("viol.true_color.alpha")
                 out.violation(rank, "true_color.alpha" + key, "alpha channel %r, expected %r (0 exactly where red is "
-                              "NaN or <= nodata, else 255)" % (o[..., 3].tolist(), exp.tolist()),
+                              "NaN or <= nodata, else 255)" % (o[..., 3].tolist(), [
+                                  "tie" if t else int(e) for t, e in zip(tie.ravel(), exp.ravel())]),
                               case=self.describe(rank), observed=o[..., 3], expected=exp)
                 continue
-            out.ok(red.size)
+            out.ok(int((~tie).sum()))
             if out.want_sample() and red.size >= 3 and exp.any() and not exp.all():
                 out.sample({"r": red, "nodata": nodata, "alpha": o[..., 3]})
 
 
+def tc_edge_letters(dt, nodata):
+    """nodata and the values immediately on either side of it in the red raster's own dtype (sorted) [+ NaN]."""
+    if dt[0] in "iu":
+        f = int(np.floor(nodata))
+        return (f - 1, f, f + 1) if f == nodata else (f, f + 1)
+    out = set()
+    for d in (("f8", "f4") if dt == "f8" else ("f4",)):
+        t = np.dtype(d).type
+        c = t(nodata)
+        out.update((float(np.nextafter(c, t(-np.inf))), float(c), float(np.nextafter(c, t(np.inf)))))
+    return tuple(sorted(out)) + (NAN,)
+
+
+class TrueColorEdgeSpace(TrueColorSpace):
+    """red values adjacent to nodata in the red raster's own dtype; same assertions as TrueColorSpace."""
+    name = "true_color_nodata_edge"
+
+    def __init__(self, tier):
+        self.combos = [(dt, nd, s, tc_edge_letters(dt, nd)) for dt, nds in TC_EDGE_NODATA.items() for nd in nds
+                       for s in TC_EDGE_SHAPES]
+        self.parts = SumSpace([("%s_%r_%dx%d" % (dt, nd, s[0], s[1]), len(al) ** (s[0] * s[1]))
+                               for dt, nd, s, al in self.combos])
+        self.size = self.parts.size
+
+    def case(self, rank):
+        from ..core.rasters import grid
+        p, local = self.parts.locate(rank)
+        dt, nodata, shape, letters = self.combos[p]
+        return dt, grid(local, shape, letters, dt), nodata
+
+
 def build(tier):
-    return [IndexSpace(n, tier) for n in ref.INDICES] + [InvalidParamSpace(), TrueColorSpace(tier)]
+    return [IndexSpace(n, tier) for n in ref.INDICES] + [InvalidParamSpace(), TrueColorSpace(tier),
+                                                         TrueColorEdgeSpace(tier)]
